@@ -159,7 +159,7 @@ Ltac wf_history := split; [unfold cfg_wf; cbn; discriminate|];
   repeat (constructor; [cbn; repeat split; try discriminate; try lia; repeat (constructor; cbn; try lia; try tauto; try (intros [?|?]; try lia; try tauto))|]); try constructor.
 
 (* (i) open_flow without the equality check: 501000 declared, only the 1000 fee sent *)
-Definition v_no_open_eq : ver := mkVer false true true true true true true true.
+Definition v_no_open_eq : ver := mkVer false true true true true true true true true.
 Definition h_open_unfunded : list op :=
   [OpenFlow 2 [(0, 1001000)] [] None None 0 1001000 None;
    OpenFlow 1 [(0, 1000)] [] None None 0 501000 None].
@@ -171,7 +171,7 @@ Proof.
 Qed.
 
 (* (ii) close_flow ignoring the expansion: 1000000 + 300000 funded, 1000000 returned *)
-Definition v_no_close_hist : ver := mkVer true false true true true true true true.
+Definition v_no_close_hist : ver := mkVer true false true true true true true true true.
 Definition h_expanded : list op :=
   [OpenFlow 1 [(0, 1000); (1, 1000000)] [] None None 1 1000000 None;
    ExpandFlow 3 [(1, 300000)] [] (ById 1) None 1 300000].
@@ -188,7 +188,7 @@ Proof.
 Qed.
 
 (* (iii) reset with an empty asset history taking the expansion amount as the flow amount *)
-Definition v_no_reset_own : ver := mkVer true true false true true true true true.
+Definition v_no_reset_own : ver := mkVer true true false true true true true true true.
 Definition h_reset : list op :=
   [OpenFlow 2 [(0, 1000); (1, 5000000)] [] None None 1 5000000 None;
    OpenFlow 1 [(0, 1000); (1, 1000)] [] None (Some 190) 1 1000 None;
@@ -201,7 +201,7 @@ Proof.
 Qed.
 
 (* (iv) expand_flow dropping its cw20 TransferFrom *)
-Definition v_no_expand_pull : ver := mkVer true true true true false true true true.
+Definition v_no_expand_pull : ver := mkVer true true true true false true true true true.
 Definition h_expand_cw20 : list op :=
   [OpenFlow 1 [(0, 1000)] [(11, 1000000)] None None 11 1000000 None;
    ExpandFlow 4 [] [(11, 333333)] (ById 1) None 11 333333].
